@@ -54,8 +54,11 @@ def dyadic_row(rng, n, denom=8, p_zero=0.3, p_det=0.15):
     return [x / denom for x in w]
 
 
+TINY = 2.0 ** -36
+
+
 def gen_spec(rng: random.Random, S=None, A=None, E=None, kind="random", R=None, denom=8, smax=12, maxdim=3,
-             zero_in_box=None, init=None, initpol=None, prob_as_array=None, adim=2, edim=2, near_tie=None):
+             zero_in_box=None, init=None, initpol=None, prob_as_array=None, adim=2, edim=2, near_tie=None, tiny=None):
     S = S or rng.randint(1, smax)
     A = A or rng.choice([1, 2, 2, 3, 4, 4, 4, 6])
     E = E or rng.randint(1, 4)
@@ -171,6 +174,11 @@ def gen_spec(rng: random.Random, S=None, A=None, E=None, kind="random", R=None, 
             nxt[s][a_lo] = list(nxt[s][a_hi]); prob[s][a_lo] = list(prob[s][a_hi])
             rew[s][a_lo] = [x - d for x in rew[s][a_hi]]
         tags.append("near-tie")
+    # tiny units: every reward (and initial estimate) multiplied by 2^-36 (exact): the same decisions as at unit scale, differences between
+    # action values far below any absolute "close enough" tolerance
+    if tiny or (tiny is None and rng.random() < 0.08):
+        rew = [[[x * TINY for x in row] for row in a] for a in rew]
+        tags.append("tiny-scale")
     # reward dtype returned by `transition`: float64 (default), or int32 / float32 when every reward is exactly representable
     rew_dtype = "float64"
     flat = [x for a in rew for row in a for x in row]
@@ -187,9 +195,13 @@ def gen_spec(rng: random.Random, S=None, A=None, E=None, kind="random", R=None, 
     if prob_as_array is None:
         prob_as_array = rng.random() < 0.4
     init_list = [float(rng.randint(-R, R)) for _ in range(S)] if init else None
+    if init_list and "tiny-scale" in tags:
+        init_list = [x * TINY for x in init_list]
     # dtype of the initial estimate returned by `initial_value`: float64, or an integer / float32 estimate (`return 0`, an integer heuristic)
     u2 = rng.random()
     init_dtype = ("int32" if u2 < 0.35 else "float32" if u2 < 0.5 else "float64") if init else ("pyint0" if u2 < 0.3 else "float64")
+    if init and "tiny-scale" in tags and init_dtype == "int32":
+        init_dtype = "float64"
     tags.append("init-" + init_dtype)
     spec = dict(smins=smins, smaxs=smaxs, amins=amins, amaxs=amaxs, emins=emins, emaxs=emaxs, nxt=nxt, rew=rew, prob=prob,
                 init=init_list, init_dtype=init_dtype,
